@@ -294,4 +294,28 @@ theorem decodeSimple_intStr (d : Dec) (hs : NumSafe d.g = true) (i : Int) :
   rw [decodeQuoted_num d _ hn hq, decodeNonDecimal_no_hash d _ h35]
   simp [decodeDecimal, int10_intStr]
 
+/-- the value of a digit string is its positional value: `int("d₁…dₖ")` for ASCII digits, with
+    leading zeros allowed (`007` is 7) -/
+theorem int10_digits (s : Str) (hs : s ≠ []) (hd : AllDigits s) :
+    int10 s = some (digitsVal s 0 : Int) := by
+  have hascii : ∀ c ∈ s, c < 128 := fun c hc => (digit_facts c (hd c hc)).1
+  have hsp : ∀ c ∈ s, cSpace c = false := fun c hc => (digit_facts c (hd c hc)).2.1
+  obtain ⟨hh, hl⟩ := head_getLast_of_all (p := fun c => cSpace c = false) _ hsp
+  unfold int10
+  rw [toAsciiNum_of_ascii _ hascii, cstrip_id _ hh hl]
+  have hsplit : splitSign s = (false, s) := by
+    cases s with
+    | nil => exact absurd rfl hs
+    | cons c r =>
+      have hc := digit_facts c (hd c (by simp))
+      unfold splitSign
+      split
+      · rename_i heq; simp at heq; omega
+      · rename_i heq; simp at heq; omega
+      · rfl
+  simp only [hsplit]
+  rw [scanDigits_digits _ hd 0 false (Or.inl hs)]
+  simp
+
+
 end Pvl
